@@ -25,6 +25,10 @@ def spell(rng, cfg, rate=0.25):
         cfg["debug_log"] = True        # the library's log statements are evaluated and formatted
     if rng.random() < 0.2:
         cfg["slow_jobs"] = True        # every job "takes" 0.2 s on the task module's timer (slow-job diagnostics run)
+    if rng.random() < 0.2:
+        # the controller's time zone has daylight saving (one of the two rules is in its DST period at any date):
+        # a time request is answered with the controller's LOCAL time
+        cfg["tz"] = rng.choice(["CET-1CEST,M3.5.0,M10.5.0/3", "AEST-10AEDT,M10.1.0,M4.1.0/3"])
     return cfg
 
 
@@ -157,6 +161,10 @@ def impl_case(case):
         m.end(im, trk)
     if case["cfg"].get("persist_cwd"):
         os.chdir(str(core.VERIF))        # the case's working directory is removed afterwards
+    if case["cfg"].get("tz"):
+        import time
+        os.environ["TZ"] = "UTC"
+        time.tzset()
     viol = [(m.name, k, w) for m in mons for (k, w) in m.violations]
     stats = {}
     if im.failed_saves:
